@@ -33,13 +33,15 @@ def euler_zxz(phi1, theta, phi2):
 # ------------------------------------------------------------------------------------------------
 # area features
 
-def gen_area_case(rng, sph):
+def gen_area_case(rng, sph, force=None):
     ctx = wg.gen_ctx(rng, sph, exotic=False)
     doc = {}
     g = wg.gen_globals(rng, ctx, doc, exotic=True, force_surface=False)
-    ftype = rng.choice(AREA)
+    ftype = rng.choice(AREA) if force is None else 'oceanic plate'
     if sph:
         cx, cy = wg.R(rng.uniform(-150, 150)), wg.R(rng.uniform(-40, 40))
+        if rng.random() < (0.3 if force is None else 0.6):
+            cx = wg.R(rng.choice([-1, 1]) * rng.uniform(172, 180))      # across the date line: raw coordinates beyond +-180 on one side
         hw = wg.R(rng.uniform(5, 15))
     else:
         cx, cy = wg.num(rng, -1e6, 1e6), wg.num(rng, -1e6, 1e6)
@@ -63,7 +65,7 @@ def gen_area_case(rng, sph):
     else:
         m0 = wg.R(d0 + rng.uniform(0.05, 0.4) * (d1 - d0))
         m1 = wg.R(d1 + rng.uniform(0.1, 0.5) * (d1 - d0))
-    kind = rng.choice(['temperature', 'temperature', 'temperature', 'composition', 'velocity', 'grains'])
+    kind = rng.choice(['temperature', 'temperature', 'temperature', 'composition', 'velocity', 'grains']) if force is None else 'temperature'
     tmodels = {'continental plate': ['uniform', 'linear', 'adiabatic', 'chapman'], 'mantle layer': ['uniform', 'linear', 'adiabatic'],
                'oceanic plate': ['uniform', 'linear', 'adiabatic', 'half space model', 'plate model', 'plate model constant age']}[ftype]
     m = {}
@@ -71,7 +73,7 @@ def gen_area_case(rng, sph):
     need_max = False
     sentinel = False
     if kind == 'temperature':
-        name = rng.choice(tmodels)
+        name = rng.choice(tmodels) if force is None else rng.choice(['half space model', 'plate model'])
         m['model'] = name
         spec['name'] = name
         if name == 'uniform':
@@ -122,6 +124,11 @@ def gen_area_case(rng, sph):
                         spec['ridge_mode'] = ('equator', 0.0)
                     spec['ridge'] = ridge
                 m['ridge coordinates'] = [ridge]
+                if rng.random() < 0.5:
+                    # a spreading velocity per ridge point (linear along the ridge)
+                    v0, v1 = wg.num(rng, 0.005, 0.15), wg.num(rng, 0.005, 0.15)
+                    spec['u_ends'] = (v0, v1)
+                    m['spreading velocity'] = [[0, [[v0, v1]]]]
     elif kind == 'composition':
         m['model'] = 'uniform'
         comps = rng.sample([0, 1, 2], rng.randint(1, 2))
@@ -188,6 +195,23 @@ def ridge_distance(spec, ctx, sx, sy, model_min_depth):
     return rad * abs(math.radians(sy))
 
 
+def spreading_velocity(spec, sx, sy):
+    """m/yr at the foot of the point on the ridge: constant, or linear between the two ridge points"""
+    if 'u_ends' not in spec:
+        return spec['u']
+    v0, v1 = spec['u_ends']
+    (ax, ay), (bx, by) = spec['ridge']
+    if not spec['sph']:
+        ex, ey = bx - ax, by - ay
+        t = ((sx - ax) * ex + (sy - ay) * ey) / (ex * ex + ey * ey)
+    elif spec['ridge_mode'][0] == 'meridian':
+        t = (sy - ay) / (by - ay)
+    else:
+        t = (sx - ax) / (bx - ax)          # sx is the raw longitude on the same branch as the ridge coordinates
+    t = max(0.0, min(1.0, t))
+    return v0 + (v1 - v0) * t
+
+
 def plate_series(z, L, Tt, Tb, term, nterms):
     """T = Tt + (Tb-Tt) [ z/L + sum 2/(n pi) sin(n pi z/L) term(n) ]"""
     s = z / L
@@ -237,7 +261,7 @@ def expected_area(spec, ctx, sx, sy, d):
                 out['_converged'] = Tconv
             else:
                 dist = ridge_distance(spec, ctx, sx, sy, m0)
-                u = spec['u'] / YEAR
+                u = spreading_velocity(spec, sx, sy) / YEAR
                 age = dist / u
                 if name == 'half space model':
                     T = Tb + ((Tt - Tb) * math.erfc(d / (2.0 * math.sqrt(kappa * age))) if age > 0 else 0.0)
@@ -491,7 +515,10 @@ def gen_line_case(rng):
         off = rng.uniform(-0.48, 0.48) * thick if fault else rng.uniform(0.02, 0.98) * thick
         h, v = bh - math.sin(a) * off, bv + math.cos(a) * off
         depth = t['d0'] + v
-        if depth < 0 or depth > t['d1'] or abs(h) < 1.0:
+        # |h| < 100 m: the trench foot error of the curve solver (up to ~1e-7 of the trench length along the trench) enters the distance as
+        # foot_error^2 / (2|h|) and is no longer negligible against the 1e-9 tolerances below (observed 1.4e-4 m at |h| = 1.1 m); C06 judges
+        # the geometry there
+        if depth < 0 or depth > t['d1'] or abs(h) < 100.0:
             continue
         ff = rng.uniform(0.05, 0.95)
         fx = t['p0'][0] + ff * (t['p1'][0] - t['p0'][0])
@@ -617,7 +644,7 @@ def gen_sentinel_family(rng):
             off = (rng.uniform(-0.4, 0.4) if kind_f == 'fault' else rng.uniform(0.1, 0.9)) * thick
             h, v = bh - math.sin(a) * off, bv + math.cos(a) * off
             depth = t['d0'] + v
-            if depth < 1e3 or depth > t['d1'] or abs(h) < 1.0:
+            if depth < 1e3 or depth > t['d1'] or abs(h) < 100.0:
                 continue
             ff = rng.uniform(0.1, 0.9)
             fx = t['p0'][0] + ff * (t['p1'][0] - t['p0'][0])
@@ -667,10 +694,12 @@ def main(tier, seed, replay):
                           '{local X, global X} = {local -1, global X}, {local X, global G} = {local X, global X}; non-trivial = parameter sets with >= 1 sentinel or a model range strictly inside the feature')
     scale = 1 if tier == 'quick' else 40
     jobs = []
-    for i in range(450 * scale):
+    for i in range(520 * scale):
         wrng = random.Random(rng.getrandbits(48))
-        sph = wrng.random() < 0.4
-        doc, ctx, spec, pts, box = gen_area_case(wrng, sph)
+        sph = wrng.random() < (0.4 if i < 450 * scale else 0.7)
+        # the last 70 per scale: oceanic plates with a ridge model (ridge geometry x velocity form x date line are too many factors
+        # to meet by chance among all area models)
+        doc, ctx, spec, pts, box = gen_area_case(wrng, sph, None if i < 450 * scale else 'ridge')
         fn = 'a%d.wb' % i
         c = core.Case('a%d' % i, files={fn: wg.dumps(doc)})
         world(c, 1, core.workfile(PID, fn))
@@ -743,7 +772,10 @@ def main(tier, seed, replay):
             got = core.split_blocks(vals(res), PROPS)
             tol = 1e-12
             if exp.get('_dist'):
-                tol = 1e-9      # the value encodes the distance to the plane (1e-3 m of ~1e5 m)
+                # the value encodes the distance to the plane (1e-3 m of ~1e5 m); close to the vertical through the trench the foot
+                # error of the curve solver (<= ~0.1 m along the trench) adds foot_error^2 / (2|h|) to the distance
+                # (observed: 2.3e-6 m at |h| = 737 m, 1.4e-4 m at 1.1 m)
+                tol = 1e-9 + (5e-6 / max(abs(p['h']), 100.0) if isinstance(p, dict) and 'h' in p else 0.0)
             if exp.get('_loose'):
                 tol = 1e-10
             if '_converged' in exp:
